@@ -430,9 +430,10 @@ class MoveGlobal:
         if module_with_imports.imports:
             lineno = module_with_imports.imports[-1].end_line - 1
         else:
-            while lineno < pymodule.lines.length() and pymodule.lines.get_line(
-                lineno + 1
-            ).lstrip().startswith("#"):
+            while lineno < pymodule.lines.length() and (
+                pymodule.lines.get_line(lineno + 1).lstrip().startswith("#")
+                or _is_blank_before_coding_line(pymodule.lines, lineno + 1)
+            ):
                 lineno += 1
         if lineno > 0:
             cut = pymodule.lines.get_line_end(lineno) + 1
@@ -807,6 +808,15 @@ def _is_module_header_line(lines, lineno):
     if lineno == 1 and line.startswith("#!"):
         return True
     return lineno <= 2 and fscommands.read_str_coding(line) is not None
+
+
+def _is_blank_before_coding_line(lines, lineno):
+    return (
+        lineno == 1
+        and lines.get_line(1).strip() == ""
+        and lines.length() > 1
+        and fscommands.read_str_coding(lines.get_line(2)) is not None
+    )
 
 
 def moving_code_with_imports(project, resource, source):
